@@ -556,6 +556,12 @@ impl Stream {
             let pending_entries = group.add_pending(consumer_name, entries.clone());
             Ok(pending_entries)
         } else {
+            // NOACK deliveries are not pending but still advance the group
+            if let Some(last_entry) = entries.last() {
+                if last_entry.id > group.get_last_id() {
+                    group.set_id(last_entry.id);
+                }
+            }
             Ok(entries)
         }
     }
